@@ -173,6 +173,30 @@ func AnyRect(rng *vkit.Rng) s2.Rect {
 	return s2.Rect{Lat: r1.Interval{Lo: a, Hi: b}, Lng: s1.Interval{Lo: rng.Range(-3.14, 3.14), Hi: rng.Range(-3.14, 3.14)}}
 }
 
+// ValidRect: a rectangle Rect.Decode accepts (it rejects invalid ones since 41c9631).
+func ValidRect(rng *vkit.Rng) s2.Rect {
+	switch rng.Intn(5) {
+	case 0:
+		return s2.EmptyRect()
+	case 1:
+		return s2.FullRect()
+	case 2:
+		// inverted longitude interval, latitude at the poles, +-pi endpoints
+		return []s2.Rect{
+			{Lat: r1.Interval{Lo: -math.Pi / 2, Hi: math.Pi / 2}, Lng: s1.Interval{Lo: 3, Hi: -3}},
+			{Lat: r1.Interval{Lo: math.Pi / 2, Hi: math.Pi / 2}, Lng: s1.Interval{Lo: math.Pi, Hi: math.Pi}},
+			{Lat: r1.Interval{Lo: -1, Hi: 1}, Lng: s1.Interval{Lo: math.Pi, Hi: -3}},
+			{Lat: r1.Interval{Lo: 0, Hi: 0}, Lng: s1.Interval{Lo: 1, Hi: math.Pi}},
+			{Lat: r1.Interval{Lo: math.Copysign(0, -1), Hi: 5e-324}, Lng: s1.Interval{Lo: -math.Pi, Hi: math.Pi}},
+		}[rng.Intn(5)]
+	}
+	a, b := rng.Range(-1.5, 1.5), rng.Range(-1.5, 1.5)
+	if a > b {
+		a, b = b, a
+	}
+	return s2.Rect{Lat: r1.Interval{Lo: a, Hi: b}, Lng: s1.Interval{Lo: rng.Range(-3.14, 3.14), Hi: rng.Range(-3.14, 3.14)}}
+}
+
 func AnyCap(rng *vkit.Rng) s2.Cap {
 	switch rng.Intn(4) {
 	case 0:
@@ -344,7 +368,7 @@ func min(a, b int) int {
 // the codecs must carry whatever the fields hold.
 func RawLoop(rng *vkit.Rng, vs []s2.Point) *s2.Loop {
 	depth := []int{0, 0, 1, 2, 3, 7, 1 << 20, 1<<31 - 1}[rng.Intn(8)]
-	return s2.VerifC09LoopRaw(vs, rng.Bool(), depth, AnyRect(rng))
+	return s2.VerifC09LoopRaw(vs, rng.Bool(), depth, ValidRect(rng))
 }
 
 // GenLoop returns a loop and a class name.
@@ -355,7 +379,7 @@ func GenLoop(rng *vkit.Rng) (*s2.Loop, string) {
 	case 1:
 		return s2.FullLoop(), "loop:full"
 	case 2:
-		return s2.VerifC09LoopRaw(nil, rng.Bool(), rng.Intn(3), AnyRect(rng)), "loop:zero-vertices"
+		return s2.VerifC09LoopRaw(nil, rng.Bool(), rng.Intn(3), ValidRect(rng)), "loop:zero-vertices"
 	case 3:
 		l := s2.RegularLoop(UnitPoint(rng), s1.Angle(rng.Range(0.01, 1.5)), 3+rng.Intn(9))
 		if rng.Bool() {
@@ -390,11 +414,11 @@ func GenPolygon(rng *vkit.Rng) (*s2.Polygon, string) {
 		return s2.PolygonFromLoops([]*s2.Loop{l}), "polygon:from-cell"
 	case 5:
 		// a loop without vertices among (or instead of) snapped loops
-		loops := []*s2.Loop{s2.VerifC09LoopRaw(nil, true, 1, AnyRect(rng))}
+		loops := []*s2.Loop{s2.VerifC09LoopRaw(nil, true, 1, ValidRect(rng))}
 		if rng.Bool() {
 			loops = append(loops, RawLoop(rng, Vertices(rng, OneLevel, 4, 10)))
 		}
-		return s2.VerifC09PolygonRaw(loops, rng.Bool(), AnyRect(rng)), "polygon:zero-vertex-loop"
+		return s2.VerifC09PolygonRaw(loops, rng.Bool(), ValidRect(rng)), "polygon:zero-vertex-loop"
 	case 0:
 		return &s2.Polygon{}, "polygon:zero-value"
 	case 1:
@@ -453,7 +477,7 @@ func GenPolygon(rng *vkit.Rng) (*s2.Polygon, string) {
 		}
 		loops[i] = RawLoop(rng, vs)
 	}
-	return s2.VerifC09PolygonRaw(loops, rng.Bool(), AnyRect(rng)), fmt.Sprintf("polygon:%d-loops-%s", nl, ModeNames[mode])
+	return s2.VerifC09PolygonRaw(loops, rng.Bool(), ValidRect(rng)), fmt.Sprintf("polygon:%d-loops-%s", nl, ModeNames[mode])
 }
 
 // Enc runs an Encode method into a byte slice.
